@@ -8,6 +8,7 @@ package bct
 import (
 	"crypto/sha256"
 	"sync"
+	"sync/atomic"
 
 	"github.com/iotaledger/iota.go/consts"
 	real "github.com/iotaledger/iota.go/curl/bct"
@@ -35,16 +36,34 @@ var (
 	memo   = map[[32]byte]*[2][729]uint{}
 )
 
+// Backend is the batched Curl a Curl object wraps (iota.go's bct.Curl, or this module's own pkg/curl through the vpcurl shim).
+type Backend interface {
+	Reset()
+	Absorb(src []trinary.Trits, tritsCount int) error
+	CopyState(l, h []uint)
+	Squeeze(dst []trinary.Trits, tritsCount int) error
+}
+
 // Curl wraps the real batched Curl.
 type Curl struct {
-	r        *real.Curl
+	r        Backend
+	clone    func(Backend) Backend
 	batches  int
 	scripted bool
 	l, h     [consts.HashTrinarySize]uint
 	cached   *[2][729]uint
 }
 
-func NewCurlP81() *Curl { return &Curl{r: real.NewCurlP81()} }
+func NewCurlP81() *Curl {
+	return NewWith(real.NewCurlP81(), func(b Backend) Backend { return b.(*real.Curl).Clone() })
+}
+
+// NewWith wraps another batched Curl implementation with the same hooks.
+func NewWith(b Backend, clone func(Backend) Backend) *Curl { return &Curl{r: b, clone: clone} }
+
+// Intercepted counts the Absorb calls that went through this shim (whatever the mode): the harness uses it to find out
+// whether Mine hashes through a package the overlay instruments at all.
+var Intercepted atomic.Int64
 
 func (c *Curl) Reset() {
 	c.r.Reset()
@@ -54,11 +73,12 @@ func (c *Curl) Reset() {
 
 func (c *Curl) Clone() *Curl {
 	d := *c
-	d.r = c.r.Clone()
+	d.r = c.clone(c.r)
 	return &d
 }
 
 func (c *Curl) Absorb(src []trinary.Trits, tritsCount int) error {
+	Intercepted.Add(1)
 	if BatchHook != nil {
 		BatchHook()
 	}
